@@ -93,3 +93,19 @@ Definition tape_gradient_la (e : expr R) (data : list (list R)) (x : list R) : l
 (** what [SGD::optimize] differentiates with: the look-ahead tape under Nesterov momentum *)
 Definition tape_gradient_sgd (nesterov : bool) := if nesterov then tape_gradient_la else tape_gradient.
 
+
+(** ** Levenberg-Marquardt's objects for a model function [e] = f(params, [[x]]) fitted to the points
+    [(x_i, y_i)]: residuals r_i = y_i - f(params, x_i), and the Jacobian of the model function (row i =
+    gradient of params |-> f(params, x_i); the Jacobian of the residuals is its opposite, J^T J is the same) *)
+Definition model_residuals (e : expr R) (xs ys : list R) (ps : list R) : list R :=
+  map (fun xy => snd xy - den e [[fst xy]] ps []) (combine xs ys).
+(** [J] is a Jacobian of the model function at [ps]: one row per point, each row the vector of partial derivatives *)
+Definition true_jacobian (e : expr R) (xs : list R) (ps : list R) (J : list (list R)) : Prop :=
+  length J = length xs /\
+  forall i, (i < length xs)%nat -> true_grad e [[nth i xs 0]] ps (nth i J []).
+(** THE Jacobian, in closed form (Coquelicot's [Derive] along each coordinate) *)
+Definition model_jacobian (e : expr R) (xs : list R) (ps : list R) : list (list R) :=
+  map (fun x => map (fun j => Derive (fun t => den e [[x]] (upd ps j t) []) (nth j ps 0)) (seq 0 (length ps))) xs.
+(** the model function is differentiable (in the sense of [smooth_at]) at [ps] for every abscissa *)
+Definition smooth_on (e : expr R) (xs : list R) (ps : list R) : Prop :=
+  forall x, In x xs -> smooth_at e [[x]] ps [].
